@@ -418,6 +418,8 @@ type vfNet struct {
 	names map[string]string // "ip:port" -> peer name
 	addrs map[string]*net.UDPAddr
 	nodes map[string]string // node name -> ip
+	bar   *net.UDPConn      // barrier socket (not among the peers: drain() never reads it)
+	nbar  uint32
 }
 
 // peers p1..p4 sit on 127.k.0.11.. :8805 (so that reports addressed to
@@ -459,7 +461,39 @@ func vfNewNet(k int) (*vfNet, error) {
 	}
 	// n9: a node id nobody listens on (reports to it vanish)
 	n.nodes["n9"] = fmt.Sprintf("127.%d.0.99", k)
+	bar, err := net.ListenUDP("udp4", &net.UDPAddr{IP: net.ParseIP(fmt.Sprintf("127.%d.0.98", k)), Port: 7805})
+	if err != nil {
+		return nil, err
+	}
+	n.bar = bar
 	return n, nil
+}
+
+// barrier sends a Heartbeat Request from a socket of its own and waits for the answer: when it arrives, every
+// datagram sent before it has been dealt with by the receiver and the event loop (one socket pair, one queue,
+// in order) - also one the receiver dropped without a trace. false: no answer (gone() became true or 10 s passed).
+func (n *vfNet) barrier(gone func() bool) bool {
+	n.nbar++
+	seq := 0xf00000 + n.nbar%0xfffff
+	b, err := message.NewHeartbeatRequest(seq, ie.NewRecoveryTimeStamp(vfT0), nil).Marshal()
+	if err != nil {
+		return false
+	}
+	if _, err := n.bar.WriteToUDP(b, &net.UDPAddr{IP: net.ParseIP(n.upf), Port: 8805}); err != nil {
+		return false
+	}
+	buf := make([]byte, 2048)
+	for t0 := time.Now(); time.Since(t0) < 10*time.Second; {
+		_ = n.bar.SetReadDeadline(time.Now().Add(20 * time.Millisecond))
+		nn, _, err := n.bar.ReadFromUDP(buf)
+		if err == nil && nn >= 8 && buf[1] == 2 && uint32(buf[4])<<16|uint32(buf[5])<<8|uint32(buf[6]) == seq {
+			return true
+		}
+		if gone() {
+			return false
+		}
+	}
+	return false
 }
 
 // vfBigRcvBuf enlarges a socket's receive buffer so that bursts emitted in one loop turn are not
@@ -475,6 +509,9 @@ func vfBigRcvBuf(rc syscall.RawConn) {
 func (n *vfNet) close() {
 	for _, c := range n.conns {
 		c.Close()
+	}
+	if n.bar != nil {
+		n.bar.Close()
 	}
 }
 
@@ -838,8 +875,8 @@ func vfMutate(b []byte, m vfMut) []byte {
 		} else if ok && m.V == 3 {
 			n = e.off // at an IE boundary
 		}
-		if n < 1 {
-			n = 1
+		if n < 0 {
+			n = 0 // an empty UDP datagram is a datagram too
 		}
 		if n < len(nb) {
 			nb = nb[:n]
@@ -909,8 +946,8 @@ func vfMutate(b []byte, m vfMut) []byte {
 		nb[0] = (nb[0] & 0x1f) | byte(m.V<<5)
 	case "rand":
 		n := m.K
-		if n < 1 {
-			n = 1
+		if n < 0 {
+			n = 0
 		}
 		nb = make([]byte, n)
 		x := uint32(m.V)*2654435761 + 1
@@ -918,9 +955,6 @@ func vfMutate(b []byte, m vfMut) []byte {
 			x = x*1664525 + 1013904223
 			nb[i] = byte(x >> 24)
 		}
-	}
-	if len(nb) == 0 {
-		nb = []byte{0}
 	}
 	return nb
 }
@@ -1338,11 +1372,12 @@ func (x *vfExec) step(r *vfRun, e *vfEvent) (vfLine, error) {
 		if err != nil {
 			return ln, err
 		}
-		if len(b) == 0 {
-			return ln, fmt.Errorf("raw: empty datagram would stop the server by design")
-		}
 		if _, err := x.net.conns[e.Peer].WriteToUDP(b, &net.UDPAddr{IP: net.ParseIP(x.net.upf), Port: 8805}); err != nil {
 			return ln, err
+		}
+		if len(b) == 0 {
+			// an empty datagram need not reach the event loop at all: the barrier tells when it has been dealt with
+			x.net.barrier(func() bool { return vfLoopReturned(r.srv) || x.peekFatal() })
 		}
 	default:
 		b, err := x.build(e)
@@ -1365,9 +1400,16 @@ func (x *vfExec) step(r *vfRun, e *vfEvent) (vfLine, error) {
 			time.Sleep(20 * time.Millisecond) // let the dying loop finish its deferred work
 			break
 		}
+		if !ok && vfLoopReturned(r.srv) {
+			break
+		}
 	}
 	ln.E = *e
 	ln.Fatal = x.takeFatal()
+	if !ok && ln.Fatal == "" && vfLoopReturned(r.srv) {
+		// nobody called Stop: the event loop left on its own account - the UPF has stopped serving
+		ln.Fatal = "the PFCP event loop returned without Stop: the UPF stopped serving"
+	}
 	if !ok && ln.Fatal == "" {
 		return ln, fmt.Errorf("event %s not consumed by the loop within 10 s", e.T)
 	}
@@ -1385,6 +1427,19 @@ func (x *vfExec) step(r *vfRun, e *vfEvent) (vfLine, error) {
 		}
 	}
 	return ln, nil
+}
+
+// vfLoopReturned: main() has run its deferred clean-up (it closes done on the way out)
+func vfLoopReturned(s *PfcpServer) bool {
+	if s == nil || s.done == nil {
+		return false
+	}
+	select {
+	case <-s.done:
+		return true
+	default:
+		return false
+	}
 }
 
 func TestVerifL1(t *testing.T) {
